@@ -84,7 +84,8 @@ def compile_objs(variant, sources, extra_cflags=()):
         elif s.endswith(".S"):
             cmd = [cc] + inc + ["-c", src, "-o", o]
         else:
-            cmd = [cc, "-std=gnu11", "-Wall", "-Wno-unused-function"] + cflags + inc + list(extra_cflags) + ["-c", src, "-o", o]
+            # a file named *99.c is compiled the way a C99 application compiles orcc's output (no C11 atomics)
+            cmd = [cc, "-std=gnu99" if s.endswith("99.c") else "-std=gnu11", "-Wall", "-Wno-unused-function"] + cflags + inc + list(extra_cflags) + ["-c", src, "-o", o]
         procs.append((s, subprocess.Popen(cmd, stdout=subprocess.PIPE, stderr=subprocess.STDOUT, text=True)))
     for s, p in procs:
         out, _ = p.communicate()
